@@ -230,6 +230,28 @@ func (e *cmdEngine) Gen(r *hlib.Rand, tier string) []string {
 			if len(ks) > 0 {
 				keys = strings.Join(ks, ",")
 			}
+			if r.Chance(45) {
+				// a batched command: several sub-requests, scans mixed with other kinds, empty and
+				// missing results before non-empty ones
+				nr := 2 + r.Intn(4)
+				var rs []string
+				for j := 0; j < nr; j++ {
+					switch x := r.Intn(10); {
+					case x < 2:
+						rs = append(rs, "n")
+					case x < 5:
+						rs = append(rs, "-")
+					default:
+						var kk []string
+						for q := 1 + r.Intn(4); q > 0; q-- {
+							kk = append(kk, hlib.Hex(rkey(r)))
+						}
+						rs = append(rs, strings.Join(kk, ","))
+					}
+				}
+				ops = append(ops, fmt.Sprintf("cmd.scanbatch %s %s %s %s", path, hlib.Hex(a), hlib.Hex(b), strings.Join(rs, ";")))
+				continue
+			}
 			ops = append(ops, fmt.Sprintf("cmd.scanout %s %s %s %s", path, hlib.Hex(a), hlib.Hex(b), keys))
 			continue
 		}
@@ -397,6 +419,50 @@ func (e *cmdEngine) Exec(ops []string) []string {
 			} else {
 				out[i] = strings.Join(ks, ",")
 			}
+		case "cmd.scanbatch":
+			meta := manifest.RegionMeta{ID: 1, StartKey: hlib.UnHex(f[2]), EndKey: hlib.UnHex(f[3])}
+			req := &pb.RaftCmdRequest{Header: &pb.CmdHeader{RegionId: 1}}
+			resp := &pb.RaftCmdResponse{}
+			parts := strings.Split(f[4], ";")
+			for j, p := range parts {
+				if p == "n" {
+					// alternate between "another command kind" and "a scan whose response is missing"
+					if j%2 == 0 {
+						req.Requests = append(req.Requests, buildReq("get", [][]byte{[]byte("k")}))
+						resp.Responses = append(resp.Responses, &pb.Response{Cmd: &pb.Response_Get{Get: &pb.GetResponse{}}})
+					} else {
+						req.Requests = append(req.Requests, buildReq("scan", nil))
+						resp.Responses = append(resp.Responses, nil)
+					}
+					continue
+				}
+				var kvs []*pb.KV
+				for _, k := range splitKeys(p) {
+					kvs = append(kvs, &pb.KV{Key: k, Value: []byte("v")})
+				}
+				req.Requests = append(req.Requests, buildReq("scan", nil))
+				resp.Responses = append(resp.Responses, &pb.Response{Cmd: &pb.Response_Scan{Scan: &pb.ScanResponse{Kvs: kvs}}})
+			}
+			if f[1] == "read" || proposeTrims {
+				store.VerifTrimScanResponse(meta, req, resp)
+			}
+			var outs []string
+			for j, p := range parts {
+				if p == "n" {
+					outs = append(outs, "n")
+					continue
+				}
+				var ks []string
+				for _, kv := range resp.Responses[j].GetScan().GetKvs() {
+					ks = append(ks, hlib.Hex(kv.Key))
+				}
+				if len(ks) == 0 {
+					outs = append(outs, "-")
+				} else {
+					outs = append(outs, strings.Join(ks, ","))
+				}
+			}
+			out[i] = strings.Join(outs, ";")
 		default:
 			out[i] = "bad-op"
 		}
